@@ -60,6 +60,8 @@ TNext == /\ l <= Len(TraceLog)
                                   /\ viol' = (IF bad = {} THEN viol ELSE viol \cup {<<l, "sync", bad>>})
                                   /\ mirror' = [u \in Users |-> ObsMirror(e, u)] /\ last' = [op |-> "sync"] /\ mconf' = confirmed
                                   /\ UNCHANGED <<dirPw, srv, row, confirmed, since, dbOut>>
+              \* a restart (or another instance over the same stores) changes nothing the specification knows of
+              [] e.ev = "restart" -> last' = [op |-> "restart"] /\ UNCHANGED <<dirPw, srv, row, confirmed, since, mirror, viol, mconf, dbOut>>
               [] e.ev = "dboutage" -> dbOut' = TRUE /\ last' = [op |-> "dboutage"] /\ UNCHANGED <<dirPw, srv, row, confirmed, since, mirror, viol, mconf>>
               [] e.ev = "dbrecover" -> dbOut' = FALSE /\ last' = [op |-> "dbrecover"] /\ UNCHANGED <<dirPw, srv, row, confirmed, since, mirror, viol, mconf>>
          /\ l' = l + 1
